@@ -6,6 +6,7 @@ mod fam;
 mod json;
 mod par;
 mod pipe;
+mod r8;
 mod props;
 mod refsem;
 mod report;
@@ -36,8 +37,10 @@ fn main() {
         "C02" => props::c02::run(tier),
         "C03" => props::c03::run(tier),
         "C05" => props::c05::run(tier),
+        "C08" => props::c08::run(tier),
         "C09" => props::c09::run(tier),
         "C11" => props::c11::run(tier),
+        "C15" => props::c15::run(tier),
         other => {
             eprintln!("unknown check {other}");
             std::process::exit(2);
